@@ -140,8 +140,10 @@ def _apply(tg, op):
     raise ValueError(op)
 
 
-def _step(m, op):
-    tg = build(m)
+def _step(m, op, tg=None):
+    """tg: an already existing LIVE textgrid that is claimed to be in state m (history-independence check)"""
+    if tg is None:
+        tg = build(m)
     before = snap_tg(tg)
     if before != m_obs(m):
         return None, 0, "build-mismatch", None, [Viol("state-rebuild-mismatch", f"textgrid rebuilt from {m} observes as {before}")]
@@ -196,6 +198,27 @@ def _snippet(case):
         lines.append(f"tg.replaceTier({op[1]!r}, {tier_src(op[3], op[2])}, {op[4]!r})")
     lines.append("print(tg.tierNames, tg.minTimestamp, tg.maxTimestamp)")
     return "\n".join(lines) + "\n"
+
+
+def _check_live(case):
+    """op1 then op2 on ONE live textgrid; the list model is advanced in lock step (hidden state in the object -
+    e.g. a cached name list - would make the second step disagree although each single step from a rebuilt textgrid agrees)"""
+    m0, op1, nslots = case
+    viols = []
+    n = 0
+    r1, _w = m_apply(m0, op1)
+    m1 = m0 if isinstance(r1, str) else r1
+    for op2 in _ops(4, nslots)(m1):
+        tg = build(m0)
+        call(_apply, tg, op1)
+        succ, k, outcome, nontriv, v = _step(m1, op2, tg=tg)
+        n += 1 + k
+        if v:
+            for x in v:
+                x["msg"] = f"after {op1} on a live textgrid: " + x["msg"]
+            viols.extend(v)
+            break
+    return n, "ok", (op1[0], len(m0[0])), viols
 
 
 # ------------------------------------------------------------------ (b) tier-wise edits
@@ -311,6 +334,12 @@ def parts(tier):
                      "compared by class, unchanged-on-failure; non-trivial = distinct (op, size, index class, widened)" % (nslots, maxtiers),
                 bounds={"names": 4, "slots": nslots, "max_tiers": maxtiers, "depth": "fixed point"}, max_depth=None,
                 snippet=_snippet, state_cap=600000),
+        InputPart("live-sequences", lambda: ((m0, op1, 5) for m0 in (((), None, None), ((("a", 0),), 0.0, 2.0), ((("b", 1), ("a", 2)), 0.0, 3.0),
+                                                                     ((("a", 0), ("b", 3), ("d", 4)), 0.0, 2.0))
+                                             for op1 in _ops(4, 5)(m0)), _check_live,
+                  rule="every pair (op1, op2) of mutator calls applied one after the other to ONE live Textgrid from 4 seed textgrids, the "
+                       "list model advanced in lock step: the object's behaviour may depend on nothing but its observable state",
+                  bounds={"sequence_length": 2}, chunk=4),
         InputPart("tierwise-edits", lambda: _tierwise_cases(quick), _check_tierwise,
                   rule="3-tier textgrids from interval sets(<=2) x point sets x every argument of crop / eraseRegion / insertSpace / "
                        "editTimestamps on the half grid (and decimal variants): the textgrid-level result equals the real per-tier "
